@@ -3,11 +3,11 @@ CONSTANTS Freqs = {7, 14, 21}
  FFReqs = {1, 2}
  NFReqs = {1}
  MaxLen = 6
- ZintSurvives = TRUE
+ ZintSurvives = FALSE
  AllowRaw = FALSE
  Volts = {1, 2}
  MaxLoads = 1
- ZKept = FALSE
+ ZKept = TRUE
 INIT Init
 NEXT Next
 INVARIANT NoStaleUse
